@@ -2,7 +2,8 @@
 //
 // One history per input line:
 //
-//	scn <udp|tcp|tcp@<n>> <queue> <limit> <eplimit> <op> <op> ...       (tcp@<n>: ConnectionCacheSize n, the session's read buffer)
+//	scn <udp|udp@<n>|tcp|tcp@<n>> <queue> <limit> <eplimit> <op> <op> ...       (tcp@<n>: ConnectionCacheSize n, the session's read buffer;
+//	                    udp@<n>: NSTART n — RFC 7252 4.7, the number of outstanding interactions; plain udp: 1000, never reached)
 //
 // ops (colon separated):
 //
@@ -639,7 +640,7 @@ func newWorld(udp bool) *world {
 	return &world{udp: udp, progs: map[string]string{}, last: map[string]sentMsg{}, feed: make(chan []byte, 4096), nextMid: 40000, notes: map[int]int{}, lastOwn: 100, ackedResp: map[int32]bool{}, resp2: map[int]bool{}, datagrams: map[int][]byte{}}
 }
 
-func runUDP(t *testing.T, queue int, limit, eplimit int64, ops []string) (out string) {
+func runUDP(t *testing.T, nstart int, queue int, limit, eplimit int64, ops []string) (out string) {
 	synctest.Test(t, func(t *testing.T) {
 		w := newWorld(true)
 		// a request monitor that drops (without error) what carries the method DELETE
@@ -649,6 +650,9 @@ func runUDP(t *testing.T, queue int, limit, eplimit int64, ops []string) (out st
 			cfg.LimitClientEndpointParallelRequests = eplimit
 			cfg.ReceivedMessageQueueSize = queue
 			cfg.TransmissionNStart = 1000
+			if nstart > 0 {
+				cfg.TransmissionNStart = uint32(nstart)
+			}
 			cfg.GetMID = func() int32 { return 0xffff/2 + 100 }
 			cfg.Handler = func(rw *responsewriter.ResponseWriter[*udpclient.Conn], r *pool.Message) {
 				w.handler(r, func() { _ = rw.SetResponse(codes.Content, message.TextPlain, bytes.NewReader([]byte("ok"))) })
@@ -890,8 +894,12 @@ func TestC11(t *testing.T) {
 			watchdog.Stop()
 			_ = w.Flush()
 		}()
-		if f[1] == "udp" {
-			fmt.Fprintln(w, runUDP(t, q, lim, ep, f[5:]))
+		if f[1] == "udp" || strings.HasPrefix(f[1], "udp@") {
+			nstart := 0
+			if i := strings.Index(f[1], "@"); i >= 0 {
+				nstart, _ = strconv.Atoi(f[1][i+1:])
+			}
+			fmt.Fprintln(w, runUDP(t, nstart, q, lim, ep, f[5:]))
 		} else {
 			cache := 0
 			if i := strings.Index(f[1], "@"); i >= 0 {
